@@ -152,6 +152,7 @@ def obs_C12(g, out):
 
 
 OBS = {"C01": obs_C01, "C12": obs_C12}
+OBS_PAIR = {}
 
 
 def main():
@@ -159,6 +160,16 @@ def main():
     props = sys.argv[2:]
     g = Grid(d)
     from harness import project_more  # noqa: F401  (registers further observation functions)
+
+    if len(props) >= 2 and props[1] == "--pair":
+        # project.py <dirA> <prop> --pair <dirB> <kind> <outfile>
+        gB = Grid(props[2])
+        out = g.header()
+        out["prop"] = props[0]
+        OBS_PAIR[props[0]](g, gB, props[3], out)
+        with open(props[4], "w") as fh:
+            json.dump(out, fh)
+        return
 
     for p in props:
         out = g.header()
